@@ -113,19 +113,19 @@ func single(name string, b []byte) namedStream {
 }
 
 var (
-	sMin12    = single("min12", minimalFile(hdr12(), 4))
-	sMin14    = single("min14", minimalFile(hdr14(), 4))
-	sMin14z   = single("min14-zero-hdr-crc", minimalFile(hdr14zero(), 2))
-	sAct3     = single("activity-3rec", activityFile(hdr14(), 3, false, 0))
-	sAct3BE   = single("activity-3rec-be-hdr12", activityFile(hdr12(), 3, true, 7))
-	sSet      = single("settings", settingsFile(hdr14()))
-	sBig      = single("activity-700rec", activityFile(hdr14(), 700, false, 3))
-	sChain2   = chain("chain(min12,activity-3rec)", sMin12.B, sAct3.B)
-	sChain2b  = chain("chain(activity-3rec,settings)", sAct3.B, sSet.B)
-	sChain3   = chain("chain(min14,activity-3rec-be,min12)", sMin14.B, sAct3BE.B, sMin12.B)
-	sChainBig = chain("chain(activity-700rec,min14)", sBig.B, sMin14.B)
-	sMonState = single("monitoring-stateful", monitoringStateful(hdr14()))
-	sZero     = single("zero-size-fields", zeroSizeFile(hdr12()))
+	sMin12       = single("min12", minimalFile(hdr12(), 4))
+	sMin14       = single("min14", minimalFile(hdr14(), 4))
+	sMin14z      = single("min14-zero-hdr-crc", minimalFile(hdr14zero(), 2))
+	sAct3        = single("activity-3rec", activityFile(hdr14(), 3, false, 0))
+	sAct3BE      = single("activity-3rec-be-hdr12", activityFile(hdr12(), 3, true, 7))
+	sSet         = single("settings", settingsFile(hdr14()))
+	sBig         = single("activity-700rec", activityFile(hdr14(), 700, false, 3))
+	sChain2      = chain("chain(min12,activity-3rec)", sMin12.B, sAct3.B)
+	sChain2b     = chain("chain(activity-3rec,settings)", sAct3.B, sSet.B)
+	sChain3      = chain("chain(min14,activity-3rec-be,min12)", sMin14.B, sAct3BE.B, sMin12.B)
+	sChainBig    = chain("chain(activity-700rec,min14)", sBig.B, sMin14.B)
+	sMonState    = single("monitoring-stateful", monitoringStateful(hdr14()))
+	sZero        = single("zero-size-fields", zeroSizeFile(hdr12()))
 	sChainState  = chain("chain(activity-3rec,monitoring-stateful)", sAct3.B, sMonState.B)
 	sChainState3 = chain("chain(monitoring-stateful,activity-3rec-be,monitoring-stateful)", sMonState.B, sAct3BE.B, sMonState.B)
 	sChainZero   = chain("chain(zero-size-fields,min12)", sZero.B, sMin12.B)
